@@ -463,11 +463,12 @@ fn try_get_token_a_from_liquidity(
     round_up: bool,
 ) -> Result<u64, CoreError> {
     let sqrt_price_diff = sqrt_price_upper - sqrt_price_lower;
-    let numerator: U256 = <U256>::from(liquidity_delta)
-        .checked_mul(sqrt_price_diff.into())
-        .ok_or(ARITHMETIC_OVERFLOW)?
-        .checked_shl(64)
-        .ok_or(ARITHMETIC_OVERFLOW)?;
+    let numerator: U256 = crate::math::checked_shl_64(
+        <U256>::from(liquidity_delta)
+            .checked_mul(sqrt_price_diff.into())
+            .ok_or(ARITHMETIC_OVERFLOW)?,
+    )
+    .ok_or(ARITHMETIC_OVERFLOW)?;
     let denominator = <U256>::from(sqrt_price_upper)
         .checked_mul(<U256>::from(sqrt_price_lower))
         .ok_or(ARITHMETIC_OVERFLOW)?;
